@@ -45,6 +45,10 @@ WHY = {
     "C12-11": "the human-readable witness map substitutes `Value::zero(commit-time target)` for a missing witness; the ill-typed value then passes through `finalize_unpruned`, whose missing type test is the known finding F-WIT (C12.check reports that route already); the Populator produces values for Construct nodes, outside the Redeem converters C12 judges",
     "C15-8": "the issuance-presence test looks at `amount` only instead of `has_issuance()` (amount or inflation keys): a predicate on runtime values of a foreign-crate type",
     "C17-10": "the exponent of `2^n` is parsed as `u16`, so `2^65536` and above are rejected: a numeric range of a parse, not a shape",
+    "C05-13": "`Frame::write_u8` selects bits least-significant first: bit-index arithmetic of the frame primitives (C13-like; C05 decides the interpreter's shape)",
+    "C16-12": "`normalized()` folds `and(x, TRIVIAL)` to `TRIVIAL`: which child a simplification keeps is the meaning of the simplification, not a shape C16 decides (it decides roots, fragments, sorting)",
+    "C16-13": "`or` picks the more expensive satisfiable branch: a comparison between two runtime costs; the returned program is still valid and has the right root",
+    "C17-12": "the type printer omits parentheses inside same-operator chains, so `A * (B * C)` re-parses as `(A * B) * C`: a condition on when to print a parenthesis, decided by runtime tree shape; C17.types decides that every token is accepted, not precedence",
     "C16-9": "the threshold's selector bits use `binary_search` on a vector ordered by cost, not by index: whether a vector is sorted by the searched key is a runtime fact about its contents",
     "C05-8": "a byte-wise fast path in `Frame::copy_from` that forgets the source cursor's alignment: bit-offset arithmetic of the frame (C13, not applicable); C05 decides the interpreter's shape, not the frame primitives",
     "C12-9": "the loop that retries generated names skips every witness node instead of only typed holes, so an inline witness keeps a name the user defined: a condition on which node kinds take part in name retry; C17.names decides that generated names cannot clash lexically, not this retry policy",
